@@ -288,6 +288,9 @@ def run(R):
     R.paths_examined += 8
     if not conv and f"{val}.split('/')" in src:
         R.fail('C09.SIB.2', inst, fs.qual, 'def from_str', 'URI components are not converted with Component.from_str(Component.escape_str(c)) like the other normalisers', fs.f.loc())
+    elif probs and not any(isinstance(x, ast.Name) and x.id == val and isinstance(x.ctx, ast.Store) for x in ast.walk(fs.f.node)):
+        # the text is never re-bound under its own name: the stripping is done on another local, which this walk does not follow
+        R.defer('Name.from_str: the slashes are not stripped by re-binding the parameter (restructured; C09.SIB.2 cannot be read)')
     elif probs:
         R.fail('C09.SIB.2', inst, fs.qual, 'def from_str', probs[0] + (f' (+{len(probs) - 1} more)' if len(probs) > 1 else ''), fs.f.loc())
     elif f"{val}.split('/')" in src and conv:
